@@ -102,6 +102,16 @@ class Call:
         return ("T", self.frame.uid, self.bb, tag)
 
 
+def _is_result(v):
+    return isinstance(v, Enum) and v.path == "std::result::Result"
+
+
+def _ret_shape(v, depth=0):
+    if isinstance(v, Enum) and depth < 3:
+        return tuple((i, tuple(_ret_shape(p, depth + 1) for p in pl[:1])) for i, pl in sorted(v.variants.items()))
+    return ()
+
+
 class Engine(Interp):
     # ------------------------------------------------------------------ rvalues
     def eval_rvalue(self, st, frame, bb, rv, dest):
@@ -876,6 +886,9 @@ class Engine(Interp):
                         self.notes.append("partition cap hit at %s bb%d: falling back to widening" % (body.key, bb))
                     else:
                         tag = tag + (("L", frame.uid, bb, lk),)
+            if body.blocks[bb]["term"]["k"] == "return" and (frame.parent is None or _is_result(s.cells.get(frame.cell(0)))):
+                # the entry function's exits are kept apart by what they return (Ok / which Err), whatever tags the paths carried
+                tag = tuple(x for x in tag if not (isinstance(x, tuple) and len(x) == 4 and x[0] == "ret")) + (("ret", frame.uid, bb, _ret_shape(s.cells.get(frame.cell(0)))),)
             s.tag = tag
             key = (bb, tag)
             old = in_states.get(key)
@@ -937,6 +950,10 @@ class Engine(Interp):
                             self.emit("return", frame=frame, st=s2)
                         # strip this frame's loop tags
                         t2 = tuple(x for x in s2.tag if not (isinstance(x, tuple) and len(x) == 4 and x[0] in ("L", "it", "F") and x[1] == frame.uid))
+                        # how the callees of this frame returned no longer matters once this frame returns
+                        n_own = len(frame.uid)
+                        t2 = tuple(x for x in t2 if not (isinstance(x, tuple) and len(x) == 4 and x[0] == "ret" and isinstance(x[1], tuple)
+                                                         and len(x[1]) > n_own and x[1][:n_own] == frame.uid))
                         if strip_all:
                             n_uid = len(frame.uid)
                             t2 = tuple(x for x in t2 if not (isinstance(x, tuple) and len(x) >= 2 and isinstance(x[1], tuple) and x[1][:n_uid] == frame.uid))
